@@ -1,7 +1,107 @@
-(* C08 — statements only. *)
-From AV Require Import Model.PyRepr Model.Render Spec.C08 Proofs.PyReprProof.
+(* C08 — rendered migration code does exactly what the operation objects do.  Statements only. *)
+From Coq Require Import String.
+From AV Require Import Model.PyRepr Model.Render Spec.C08 Proofs.PyReprProof Proofs.RenderProof.
+Open Scope N_scope.
 
+(* repr() followed by the lexer is the identity, for every string and every printability oracle *)
 Theorem py_repr_roundtrip : forall (printable : N -> bool) (s : str),
   valid_str s -> py_lex (py_repr printable s) = Ok [StrTok s].
 Proof. exact PyReprProof.py_repr_roundtrip. Qed.
 Print Assumptions py_repr_roundtrip.
+
+(* any well-formed token list whose string tokens are all produced by repr lexes back to itself *)
+Theorem C08_lex_tokens : forall (printable : N -> bool) (l : list ptok),
+  forallb wf_tok l = true -> forallb via_repr_tok l = true -> py_lex (untok printable l) = Ok (map erase l).
+Proof. exact RenderProof.lex_untok. Qed.
+Print Assumptions C08_lex_tokens.
+
+(* the table lemma: every renderer passes every string field through repr, table prefixes excepted *)
+Theorem C08_all_leaves_via_repr : forall c ops,
+  forallb top_ty_ok ops = true -> forallb no_prefixes ops = true ->
+  forallb (fun st => forallb all_leaves_via_repr (stmt_exprs st)) (render_ops c ops) = true.
+Proof. exact RenderProof.render_all_via_repr. Qed.
+Print Assumptions C08_all_leaves_via_repr.
+
+(* hence the printed text of every rendered expression lexes to the intended token list *)
+Theorem C08_tokens : forall (printable : N -> bool) c ops st e,
+  forallb top_ty_ok ops = true -> forallb no_prefixes ops = true ->
+  In st (render_ops c ops) -> In e (stmt_exprs st) -> wf_expr e = true ->
+  py_lex (print printable e) = Ok (tokens e).
+Proof.
+  intros printable c ops st e T P Hst He W. apply RenderProof.print_lex; [exact W|].
+  pose proof (RenderProof.render_all_via_repr c ops T P) as A. rewrite forallb_forall in A.
+  specialize (A st Hst). rewrite forallb_forall in A. exact (A e He).
+Qed.
+Print Assumptions C08_tokens.
+
+(* reading the rendered tree back as the Operations proxies do yields the operation objects *)
+Theorem C08_eval : forall c ops, canonical (c, ops) = true -> eval_stmts c (render_ops c ops) = Some (expected c ops).
+Proof. exact RenderProof.eval_render. Qed.
+Print Assumptions C08_eval.
+
+Theorem C08_decider_sound : forall i o, check_C08 i o = true -> C08_holds i o.
+Proof. exact RenderProof.decider_sound. Qed.
+Print Assumptions C08_decider_sound.
+
+Theorem C08_main : forall i, inclass_C08 i = true -> C08_holds i (model_C08 i).
+Proof. exact RenderProof.model_holds. Qed.
+Print Assumptions C08_main.
+
+(* ---------------------------------------------------------------- what is false of the faithful model *)
+Definition cfg0 : cfg := mkCfg (lit "op") (lit "sa") false.
+Definition id0 (s:string) : ident := mkId (lit s) None.
+Definition col0 (d:option sdefault) : column :=
+  mkCol (id0 "c") (mkTy TySa [lit "String"] []) d None true false None.
+
+(* a string server default with a quote at either end loses it: _render_server_default strips them *)
+Definition w_default : c08_in := (cfg0, [TOp (id0 "t") None (OAddColumn (col0 (Some (SdStr (lit "'x'")))))]).
+Theorem C08_eval_refuted_default_quotes : ~ C08_holds w_default (model_C08 w_default).
+Proof. intros [_ H]. vm_compute in H. discriminate. Qed.
+Print Assumptions C08_eval_refuted_default_quotes.
+
+(* quoted_name(..., quote=True): _ident keeps the characters and drops the flag *)
+Definition w_quote : c08_in := (cfg0, [TDropTable (mkId (lit "plain") (Some true)) None None false]).
+Theorem C08_eval_refuted_quote_flag : ~ C08_holds w_quote (model_C08 w_quote).
+Proof. intros [_ H]. vm_compute in H. discriminate. Qed.
+Print Assumptions C08_eval_refuted_quote_flag.
+
+(* the rendered drop_table has no columns: the DROP TYPE of a native Enum column is lost *)
+Definition w_droptype : c08_in := (cfg0, [TDropTable (id0 "t") None None true]).
+Theorem C08_eval_refuted_drop_table_types : ~ C08_holds w_droptype (model_C08 w_droptype).
+Proof. intros [_ H]. vm_compute in H. discriminate. Qed.
+Print Assumptions C08_eval_refuted_drop_table_types.
+
+(* the batch header is rendered with a hard-coded "op." whatever alembic_module_prefix says *)
+Definition w_prefix : c08_in := (mkCfg (lit "aop") (lit "sa") true, [TModify (id0 "t") None [(id0 "t", None, ODropColumn (id0 "c"))]]).
+Theorem C08_eval_refuted_batch_prefix : ~ C08_holds w_prefix (model_C08 w_prefix).
+Proof. intros [_ H]. vm_compute in H. discriminate. Qed.
+Print Assumptions C08_eval_refuted_batch_prefix.
+
+(* table prefixes are pasted between quote characters: one renderer is left that does not use repr,
+   and a prefix containing a quote makes the printed call unlexable *)
+Definition w_rawquote : table := mkTable (id0 "t") None [col0 None] [] None [lit "TEMP'ORARY"] None.
+Theorem C08_prefix_raw_quote_refuted :
+  all_leaves_via_repr (render_create_table cfg0 w_rawquote) = false /\
+  exists err, py_lex (print (fun _ => true) (render_create_table cfg0 w_rawquote)) = Err err.
+Proof. split; [vm_compute; reflexivity|]. eexists. vm_compute. reflexivity. Qed.
+Print Assumptions C08_prefix_raw_quote_refuted.
+
+(* ---------------------------------------------------------------- non-vacuity *)
+Definition ex_table : table :=
+  mkTable (id0 "it's") (Some (id0 "My Schema"))
+    [mkCol (id0 "na\""me") (mkTy TySa [lit "String"] [PKw (lit "length") (PInt false (lit "30"))]) (Some (SdStr (lit "d'f"))) None false false (Some (lit "c'm"));
+     mkCol (id0 "n") (mkTy (TyDialect (lit "mysql")) [lit "TINYINT"] []) (Some (SdComputed (lit "a + 1") (Some true))) (Some false) true false None]
+    [CPk [id0 "n"] (Conv (lit "pk_t")); CUq [id0 "n"] (Plain (id0 "uq'1")) (Some true) None; CCk (lit "n > 0") NoName]
+    (Some (lit "tbl 'c'")) [lit "TEMPORARY"] (Some true).
+Definition ex_input : c08_in :=
+  (mkCfg (lit "op") (lit "sa") true,
+   [TCreateTable ex_table;
+    TModify (id0 "t") (Some (id0 "s")) [(id0 "t", Some (id0 "s"), OCreateIndex (Conv (lit "ix")) [IxCol (id0 "a b"); IxExpr (lit "lower(x)")] (Some true) None);
+                                        (id0 "t", Some (id0 "s"), OCreateTableComment (Some (lit "it's")) None)]]).
+Example C08_main_nonvacuous : inclass_C08 ex_input = true /\ length (render_ops (fst ex_input) (snd ex_input)) = 2%nat.
+Proof. vm_compute. auto. Qed.
+Example C08_tokens_nonvacuous :
+  forallb top_ty_ok [TCreateTable ex_table] = false \/
+  (forallb no_prefixes [TOp (id0 "t") None (OAddColumn (col0 (Some (SdStr (lit "d'f")))))] = true /\
+   wf_expr (render_tbl_op cfg0 false (id0 "t") None (OAddColumn (col0 (Some (SdStr (lit "d'f")))))) = true).
+Proof. right. vm_compute. auto. Qed.
